@@ -314,6 +314,10 @@ func backward(v ssa.Value, visit func(ssa.Value) bool) {
 			rec(y.Iter)
 		case *ssa.Range:
 			rec(y.X)
+		case *ssa.Alloc:
+			for _, sv := range storedInto(y) {
+				rec(sv)
+			}
 		}
 	}
 	rec(v)
@@ -507,4 +511,254 @@ func invokeOf(in ssa.Instruction) (recvIface *types.Named, method string, call s
 	}
 	n, _ := cc.Value.Type().(*types.Named)
 	return n, cc.Method.Name(), c, true
+}
+
+
+// storedInto lists the values stored into a local allocation (directly or through
+// IndexAddr/FieldAddr of it): the contents a later load may observe.
+func storedInto(al *ssa.Alloc) []ssa.Value {
+	var out []ssa.Value
+	var visit func(addr ssa.Value, depth int)
+	visit = func(addr ssa.Value, depth int) {
+		refs := addr.Referrers()
+		if refs == nil || depth > 3 {
+			return
+		}
+		for _, r := range *refs {
+			switch x := r.(type) {
+			case *ssa.Store:
+				if x.Addr == addr {
+					out = append(out, x.Val)
+				}
+			case *ssa.IndexAddr:
+				if x.X == addr {
+					visit(x, depth+1)
+				}
+			case *ssa.FieldAddr:
+				if x.X == addr {
+					visit(x, depth+1)
+				}
+			}
+		}
+	}
+	visit(al, 0)
+	return out
+}
+
+// ---------- interprocedural backward trace ----------
+
+// traceOpts controls traceBack.
+type traceOpts struct {
+	IntoReturns bool // descend into the return operands of static same-package callees
+	ThroughArgs bool // from a parameter, continue at the matching argument of every static call site in the package
+	MaxDepth    int
+}
+
+// traceBack walks backwards from v like backward(), additionally crossing function
+// boundaries as configured. visit returns false to stop descending below a value.
+func (p *Prog) traceBack(v ssa.Value, o traceOpts, visit func(ssa.Value) bool) {
+	if o.MaxDepth == 0 {
+		o.MaxDepth = 4
+	}
+	seen := map[ssa.Value]bool{}
+	var rec func(x ssa.Value, depth int)
+	rec = func(x ssa.Value, depth int) {
+		if x == nil || seen[x] {
+			return
+		}
+		seen[x] = true
+		if !visit(x) {
+			return
+		}
+		switch y := x.(type) {
+		case *ssa.Phi:
+			for _, e := range y.Edges {
+				rec(e, depth)
+			}
+		case *ssa.ChangeType:
+			rec(y.X, depth)
+		case *ssa.ChangeInterface:
+			rec(y.X, depth)
+		case *ssa.MakeInterface:
+			rec(y.X, depth)
+		case *ssa.Convert:
+			rec(y.X, depth)
+		case *ssa.TypeAssert:
+			rec(y.X, depth)
+		case *ssa.Extract:
+			if c, ok := y.Tuple.(*ssa.Call); ok && o.IntoReturns && depth < o.MaxDepth {
+				if f := c.Call.StaticCallee(); f != nil && p.InPkg(f) && f.Blocks != nil {
+					for _, b := range f.Blocks {
+						if r := retOf(b); r != nil && y.Index < len(r.Results) {
+							rec(r.Results[y.Index], depth+1)
+						}
+					}
+					return
+				}
+			}
+			rec(y.Tuple, depth)
+		case *ssa.Call:
+			if o.IntoReturns && depth < o.MaxDepth {
+				if f := y.Call.StaticCallee(); f != nil && p.InPkg(f) && f.Blocks != nil && f.Signature.Results().Len() == 1 {
+					for _, b := range f.Blocks {
+						if r := retOf(b); r != nil && len(r.Results) == 1 {
+							rec(r.Results[0], depth+1)
+						}
+					}
+				}
+			}
+		case *ssa.UnOp:
+			rec(y.X, depth)
+		case *ssa.FieldAddr:
+			rec(y.X, depth)
+		case *ssa.Field:
+			rec(y.X, depth)
+		case *ssa.IndexAddr:
+			rec(y.X, depth)
+		case *ssa.Index:
+			rec(y.X, depth)
+		case *ssa.Slice:
+			rec(y.X, depth)
+		case *ssa.Lookup:
+			rec(y.X, depth)
+		case *ssa.Next:
+			rec(y.Iter, depth)
+		case *ssa.Range:
+			rec(y.X, depth)
+		case *ssa.Alloc:
+			for _, sv := range storedInto(y) {
+				rec(sv, depth)
+			}
+		case *ssa.Parameter:
+			if !o.ThroughArgs || depth >= o.MaxDepth {
+				return
+			}
+			fn := y.Parent()
+			idx := -1
+			for i, pa := range fn.Params {
+				if pa == y {
+					idx = i
+				}
+			}
+			if idx < 0 {
+				return
+			}
+			for _, caller := range p.Funcs {
+				allInstrs(caller, func(in ssa.Instruction) {
+					ci, ok := in.(ssa.CallInstruction)
+					if !ok || ci.Common().StaticCallee() != fn {
+						return
+					}
+					args := ci.Common().Args
+					if idx < len(args) {
+						rec(args[idx], depth+1)
+					}
+				})
+			}
+		}
+	}
+	rec(v, 0)
+}
+
+// derivesFromField: v is computed from a load of field `field` of struct type `owner`.
+func (p *Prog) derivesFromField(v ssa.Value, owner, field string, o traceOpts) bool {
+	found := false
+	p.traceBack(v, o, func(x ssa.Value) bool {
+		if found {
+			return false
+		}
+		if n, f, _, ok := fieldOfAddr(x); ok && n != nil && n.Obj().Name() == owner && f == field {
+			found = true
+			return false
+		}
+		if n, f, _, ok := loadedField(x); ok && n != nil && n.Obj().Name() == owner && f == field {
+			found = true
+			return false
+		}
+		return true
+	})
+	return found
+}
+
+// staticClosure returns fn plus the package functions reachable from it through static
+// calls only (no interface dispatch, no function values), up to maxDepth levels; skip
+// excludes callees.
+func (p *Prog) staticClosure(fn *ssa.Function, maxDepth int, skip func(*ssa.Function) bool) []*ssa.Function {
+	seen := map[*ssa.Function]bool{fn: true}
+	out := []*ssa.Function{fn}
+	frontier := []*ssa.Function{fn}
+	for d := 0; d < maxDepth && len(frontier) > 0; d++ {
+		var next []*ssa.Function
+		for _, f := range frontier {
+			fs := append([]*ssa.Function{f}, f.AnonFuncs...)
+			for _, g := range fs {
+				if !seen[g] {
+					seen[g] = true
+					out = append(out, g)
+				}
+				allInstrs(g, func(in ssa.Instruction) {
+					ci, ok := in.(ssa.CallInstruction)
+					if !ok {
+						return
+					}
+					c := ci.Common().StaticCallee()
+					if c == nil || !p.InPkg(c) || c.Blocks == nil || seen[c] {
+						return
+					}
+					if skip != nil && skip(c) {
+						return
+					}
+					seen[c] = true
+					out = append(out, c)
+					next = append(next, c)
+				})
+			}
+		}
+		frontier = next
+	}
+	return out
+}
+
+// returnsNonNilError: every path from block b reaches a Return whose error operand
+// (last result) is not the nil constant.
+func returnsNonNilErrorFrom(b *ssa.BasicBlock) bool {
+	fn := b.Parent()
+	ei := -1
+	if n := fn.Signature.Results().Len(); n > 0 && isErrorType(fn.Signature.Results().At(n-1).Type()) {
+		ei = n - 1
+	}
+	if ei < 0 {
+		return false
+	}
+	seen := map[*ssa.BasicBlock]bool{}
+	var dfs func(x *ssa.BasicBlock) bool
+	dfs = func(x *ssa.BasicBlock) bool {
+		if seen[x] {
+			return true
+		}
+		seen[x] = true
+		if r := retOf(x); r != nil {
+			return ei < len(r.Results) && !isNilConst(r.Results[ei])
+		}
+		if len(x.Succs) == 0 {
+			return false
+		}
+		for _, s := range x.Succs {
+			if !dfs(s) {
+				return false
+			}
+		}
+		return true
+	}
+	return dfs(b)
+}
+
+// constOf resolves a package-level constant to its int64 value.
+func (p *Prog) constOf(name string) (int64, bool) {
+	c, ok := p.Types.Scope().Lookup(name).(*types.Const)
+	if !ok {
+		return 0, false
+	}
+	v, exact := constant.Int64Val(c.Val())
+	return v, exact
 }
